@@ -29,6 +29,10 @@ type Run struct {
 	findings    []finding
 	seenKeys    map[string]bool
 	Exhaustive  bool
+	// replayKey != "": whole-run replay mode (cheap checks): the enumeration runs as usual, nothing is written, and the
+	// run exits 1 iff a violation with exactly this key is raised again.
+	replayKey  string
+	replaySeen bool
 }
 
 type finding struct {
@@ -46,6 +50,15 @@ func Dir() string {
 		return d
 	}
 	return "/verif"
+}
+
+// outDir is where evidence/ and replays/ live: /verif, or build/scratch when VERIF_NOEVIDENCE is set (mutation runs
+// must not overwrite the evidence of the unchanged tree).
+func outDir() string {
+	if os.Getenv("VERIF_NOEVIDENCE") != "" {
+		return filepath.Join(Dir(), "build", "scratch")
+	}
+	return Dir()
 }
 
 // Tier returns quick|thorough.
@@ -134,11 +147,34 @@ func (r *Run) NotExhaustive(why string) {
 	r.Cov["caps_hit"] = append(caps, why)
 }
 
+// ReplayWholeRun switches the run into whole-run replay mode for the artefact at path (see replayKey).
+func (r *Run) ReplayWholeRun(path string) {
+	b, err := os.ReadFile(path)
+	if err != nil {
+		fmt.Fprintln(os.Stderr, "replay:", err)
+		os.Exit(2)
+	}
+	var a struct {
+		Key string `json:"key"`
+	}
+	if err := json.Unmarshal(b, &a); err != nil || a.Key == "" {
+		fmt.Fprintln(os.Stderr, "replay: artefact has no key")
+		os.Exit(2)
+	}
+	r.replayKey = a.Key
+}
+
 // Violation reports one violation class. key identifies the failing call site/shape (matched against
 // known_findings.json); artefact is the replayable case. Returns true if it counted as a new violation.
 func (r *Run) Violation(key string, artefact any) bool {
 	r.mu.Lock()
 	defer r.mu.Unlock()
+	if r.replayKey != "" {
+		if key == r.replayKey {
+			r.replaySeen = true
+		}
+		return false
+	}
 	for _, f := range r.findings {
 		if f.re.MatchString(key) {
 			r.knownHit[f.Match+"\x00"+f.What]++
@@ -151,15 +187,15 @@ func (r *Run) Violation(key string, artefact any) bool {
 	}
 	r.seenKeys[key] = true
 	r.violations++
-	dir := filepath.Join(Dir(), "replays", r.ID)
+	dir := filepath.Join(outDir(), "replays", r.ID)
 	_ = os.MkdirAll(dir, 0o755)
 	p := filepath.Join(dir, fmt.Sprintf("%d.json", len(r.seenKeys)))
 	b, _ := json.MarshalIndent(map[string]any{"property": r.ID, "key": key, "artefact": artefact}, "", " ")
-	if len(r.seenKeys) <= 10 {
+	if len(r.seenKeys) <= 40 {
 		_ = os.WriteFile(p, b, 0o644)
 		fmt.Printf("VIOLATION property=%s replay=%s\n", r.ID, p)
 		fmt.Printf("  key: %s\n", key)
-	} else if len(r.seenKeys) == 11 {
+	} else if len(r.seenKeys) == 41 {
 		fmt.Println("  (further distinct violations are counted but not printed)")
 	}
 	return true
@@ -170,6 +206,14 @@ func (r *Run) Violations() int { r.mu.Lock(); defer r.mu.Unlock(); return r.viol
 
 // Finish writes the evidence file and exits 0/1.
 func (r *Run) Finish() {
+	if r.replayKey != "" {
+		if r.replaySeen {
+			fmt.Printf("replay: still fails: %s\n", r.replayKey)
+			os.Exit(1)
+		}
+		fmt.Printf("replay: no longer fails: %s\n", r.replayKey)
+		os.Exit(0)
+	}
 	r.mu.Lock()
 	keys := make([]string, 0, len(r.knownHit))
 	for k := range r.knownHit {
@@ -201,7 +245,7 @@ func (r *Run) Finish() {
 	if r.Assumptions == nil {
 		out["assumptions"] = []string{}
 	}
-	dir := filepath.Join(Dir(), "evidence")
+	dir := filepath.Join(outDir(), "evidence")
 	_ = os.MkdirAll(dir, 0o755)
 	b, _ := json.MarshalIndent(out, "", " ")
 	if err := os.WriteFile(filepath.Join(dir, r.ID+".json"), b, 0o644); err != nil {
